@@ -410,15 +410,21 @@ class T4World(World):
     kind = "tt4"
 
     def __init__(self, sx, ver, mle, mlc, mfs, oldlen=0, typ="A", fsci=8, fwi=4,
-                 aid_v=2, tx_size=None, wtx_at=(), fill=None, guard=0):
+                 aid_v=2, tx_size=None, wtx_at=(), fill=None, guard=0, fid=0xE104,
+                 more_tlvs=()):
         self.sx = sx
         nl = 2 if ver >> 4 < 3 else 4
         self.nl = nl
         b2 = lambda v: [v >> 8, v & 0xFF]
+        # fid: identifier of the NDEF file (any value but the reserved ones
+        # may be used); more_tlvs: further TLV blocks behind the NDEF File
+        # Control TLV (proprietary file control TLVs, 05h)
         if nl == 2:
-            tlv = [0x04, 0x06, 0xE1, 0x04] + b2(mfs) + [0x00, 0x00]
+            tlv = [0x04, 0x06] + b2(fid) + b2(mfs) + [0x00, 0x00]
         else:
-            tlv = [0x06, 0x08, 0xE1, 0x04, 0, 0] + b2(mfs) + [0x00, 0x00]
+            tlv = [0x06, 0x08] + b2(fid) + [0, 0] + b2(mfs) + [0x00, 0x00]
+        for t in more_tlvs:
+            tlv = tlv + list(t)
         cc = b2(7 + len(tlv)) + [ver] + b2(mle) + b2(mlc) + tlv
         # `guard` bytes of the card's file lie behind the size the CC declares
         nfile = [None] * (mfs + guard)
@@ -431,10 +437,14 @@ class T4World(World):
         self.cap = mfs - nl
         self.oldlen = oldlen
         self.old = sx.mkbytes(nfile[nl:nl + oldlen], False)
-        self.sim = tags.Tt4Card({0xE103: cc, 0xE104: nfile}, mle, mlc, fsci=fsci,
+        self.fid = fid
+        files = {0xE103: cc, fid: nfile}
+        for t in more_tlvs:
+            files[(t[2] << 8) | t[3]] = [0x5A] * 8        # the proprietary file
+        self.sim = tags.Tt4Card(files, mle, mlc, fsci=fsci,
                                 fwi=fwi, typ=typ, aid_v=aid_v, tx_size=tx_size,
                                 wtx_at=wtx_at)
-        base = self.sim.base[0xE104]
+        base = self.sim.base[fid]
         self.area = set(range(base, base + mfs))
         self.clf = tags.SimClf(self.sim)
         self.unit = 1
